@@ -270,3 +270,12 @@ PROPS["C15"] = dict(
     ],
     assumptions=["light and doodad-set records are compared field by field through the parser; liquids and BSP nodes of groups are not generated"],
 )
+
+PROPS["C13"] = dict(
+    rule="models over versions Vanilla..MoP (cycled): names of varying length, global sequences, 1..5 bones whose translation/scale tracks draw time lines from a shared pool (shared time line with own values, fully shared tracks, own ranges pre-WotLK), vertices, materials, static transparency tracks, events with and without time lists, attachments with and without animated scale; write -> parse must give the same content (structures through the parser, key frames read from the file through the (count, offset) pairs), a second write the same bytes, conversion to the same version the same bytes and to another version (all 25 pairs over a run) the shared content; the relocated offsets of all bone key-frame blobs are compared with the Lean relocation model's. Skins: old and versioned layouts x every list empty/one/many, write -> parse -> write. non-trivial = a model or skin that passed all comparisons",
+    trusted_base=COMMON_TB + [
+        "only the sections listed are generated (no textures, cameras, lights, emitters, colour/texture animations, rotations): their serialisation uses the same relocation scheme but is not exercised; anim files are not generated",
+        "old-layout skins carry at least 6 indices except in the known-finding sample (D40)",
+    ],
+    assumptions=["rotation tracks (compressed quaternions) are left empty: their element size differs by version and the generator keeps to vec3 tracks"],
+)
